@@ -525,6 +525,72 @@ func ruleReset(c *Ctx) {
 			}
 		}
 	}
+	// nil-sensitive fields: where some reader distinguishes nil from empty (compares the field with nil), a reset
+	// that merely empties the container leaves the next run in a state a fresh Interpreter is never in; the reset
+	// must store nil (what construction leaves there)
+	nilSensitive := map[string]token.Pos{}
+	for _, fn := range c.srcFuncs("interp") {
+		root := fn
+		for root.Parent() != nil {
+			root = root.Parent()
+		}
+		if resetFns[root] {
+			continue
+		}
+		allInstrs(fn, func(in ssa.Instruction) {
+			bo, ok := in.(*ssa.BinOp)
+			if !ok || (bo.Op != token.EQL && bo.Op != token.NEQ) {
+				return
+			}
+			for _, pair := range [][2]ssa.Value{{bo.X, bo.Y}, {bo.Y, bo.X}} {
+				if !isNilConst(pair[1]) {
+					continue
+				}
+				if n := interpFieldLoad(pair[0]); n != "" {
+					if _, isMap := pair[0].Type().Underlying().(*types.Map); isMap {
+						nilSensitive[n] = in.Pos()
+					}
+					if _, isSl := pair[0].Type().Underlying().(*types.Slice); isSl {
+						nilSensitive[n] = in.Pos()
+					}
+				}
+			}
+		})
+	}
+	for f := range nilSensitive {
+		// every store of the field inside the reset functions must be nil, and there must be one on every path
+		onlyNil, any := true, false
+		for _, w := range writes[f] {
+			root := w.fn
+			for root.Parent() != nil {
+				root = root.Parent()
+			}
+			if !resetFns[root] || root == newInterp {
+				continue
+			}
+			if w.kind == "store" {
+				any = true
+				if !isNilConst(w.val) {
+					onlyNil = false
+				}
+			}
+		}
+		constructed := false
+		for _, w := range writes[f] {
+			if w.fn == newInterp && w.kind == "store" && !isNilConst(w.val) {
+				constructed = true
+			}
+		}
+		if constructed || len(dirtOf[f]) == 0 {
+			continue // construction installs a container: empty and fresh are the same state
+		}
+		mustNil := core[f] && any && onlyNil && mustStoreAtSuccess(resetCore)[f]
+		if !core[f] {
+			continue // not a field the reset re-establishes at all (a buffer or cache kept across runs by design: decided by its own class below)
+		}
+		c.check(mustNil || cfg[f], "nil-reset:"+f, nilSensitive[f], "field "+f+" is compared with nil by a reader and is set back to nil (not merely emptied) by the reset", "field "+f+" is compared with nil somewhere (nil and empty mean different things to that reader), a fresh Interpreter has it nil, but the reset only empties it (or does not store nil on every path): a reused Interpreter then behaves differently from a fresh one")
+	}
+
 	for _, f := range names {
 		dirt := dirtOf[f]
 		key := "field:" + f
